@@ -32,7 +32,7 @@ P = {
         {'name': 'erc20', 'n': {'quick': 450, 'thorough': 12000}, 'shrink_field': 'ops', 'batch': 6000},
     ],
     'coq_header': 'From HV Require Import Erc20.PegModel.\nFrom Coq Require Import ZArith NArith List.\nImport ListNotations.',
-    'lists': {'cases': {'type': 'N * list (op * obs) * list mcase', 'check': 'mismatches', 'shard': 60}},
+    'lists': {'cases': {'type': 'N * list (spell * op * obs) * list mcase', 'check': 'mismatches', 'shard': 60}},
     'search': {'rounds': 3, 'n': 2500},
     'rule': 'a case is one token pair (coin-origin with the module\'s own ERC20MinterBurnerDecimals deployed by RegisterCoin; or '
             'token-origin with: the compiled honest token, ERC20DirectBalanceManipulation, ERC20MaliciousDelayed, a hand-assembled '
